@@ -296,3 +296,59 @@ ob("C19", "K5.gen_twice", {"kind1": R(0, 2), "kind2": R(0, 2), "infer1": BOOL, "
    funcs=["cdd.compound.gen_utils.gen_module", "cdd.shared.ast_utils.infer_imports", "cdd.shared.ast_utils.optimise_imports"],
    bound="two gen_module calls in ONE process (emit kinds class/function/argparse each, import inference on/off each, same or different entry names; solver-enumerated): the second module "
          "also defines its symbol, lists it in __all__, imports typing when Optional is used and inference is on, and compiles")(gen_twice)
+
+
+# K6: no-clobber with REAL files: however the existing output file is named on the command line, gen leaves it untouched ---------------------------------------
+def no_clobber_real(spelling, emit):
+    import contextlib
+    import io
+    import shutil
+    import sys
+    import tempfile
+
+    root = os.path.realpath(tempfile.mkdtemp(prefix="chx_c19_%d_" % os.getpid()))
+    home, cwd = os.path.join(root, "home"), os.path.join(root, "cwd")
+    os.makedirs(home)
+    os.makedirs(os.path.join(cwd, "sub"))
+    with open(os.path.join(root, "inmod19.py"), "wt") as f:
+        f.write("class Src(object):\n    '''\n    Doc of it.\n\n    :cvar a: the a\n    '''\n\n    a: int = 5\n\n\ninput_map = {'Alpha': Src}\n")
+    # (where the file really is, how the command line names it)
+    real, arg = ((os.path.join(cwd, "models.py"), os.path.join(cwd, "models.py")), (os.path.join(home, "models.py"), "~/models.py"), (os.path.join(cwd, "models.py"), "models.py"),
+                 (os.path.join(cwd, "models.py"), "./sub/../models.py"), (os.path.join(home, "models.py"), "$HOME/models.py"), (os.path.join(cwd, "models.py"), os.path.join(cwd, "sub", "..", "models.py")))[spelling]
+    sentinel = "# precious hand-written file\nX = 1\n"
+    with open(real, "wt") as f:
+        f.write(sentinel)
+    saved = os.environ.get("HOME"), os.getcwd()
+    os.environ["HOME"] = home
+    os.chdir(cwd)
+    sys.path.insert(0, root)
+    try:
+        import cdd.__main__ as m
+
+        with contextlib.redirect_stdout(io.StringIO()), contextlib.redirect_stderr(io.StringIO()):
+            try:
+                m.main(["gen", "--name-tpl", "{name}Config", "--input-mapping", "inmod19.input_map", "--emit", ("class", "function", "argparse")[emit], "--parse", "class",
+                        "--output-filename", arg])
+            except (Exception, SystemExit):
+                pass
+        with open(real, "rt") as f:
+            after = f.read()
+    finally:
+        sys.path.remove(root)
+        sys.modules.pop("inmod19", None)
+        os.chdir(saved[1])
+        if saved[0] is None:
+            os.environ.pop("HOME", None)
+        else:
+            os.environ["HOME"] = saved[0]
+        shutil.rmtree(root, ignore_errors=True)
+    if after != sentinel:
+        return "gen modified an existing output file named %r on the command line (%d -> %d bytes)" % (arg, len(sentinel), len(after))
+    return ""
+
+
+import os  # noqa: E402
+
+ob("C19", "K6.no_clobber_real", {"spelling": R(0, 5), "emit": R(0, 2)}, enum=True, isolated=True, T=900, funcs=["cdd.__main__.main", "cdd.compound.gen.gen", "cdd.compound.gen_utils.gen_file"],
+   bound="cdd.__main__.main(['gen', ...]) with REAL files (fresh interpreter per path): the output file exists and is named on the command line by its absolute path / '~/models.py' / a relative "
+         "path / a path with '..' / '$HOME/models.py' / an absolute path with '..'; emit kind class/function/argparse (solver-enumerated): whatever the command does, the existing file's bytes are unchanged")(no_clobber_real)
